@@ -41,6 +41,7 @@ from vgi_rpc.http._replay import NonceCache
 
 PROPERTY = "C23"
 RULE = (
+    "Family full_race: the same race started by a launcher thread on a cache pre-filled to capacity (or one below) with older live nonces. "
     "Hypothesis: capacity 1..4, ttl ∈ {1,2,3,5,30}, 1–3 threads each with ≤5 ops (submit nonce id 0..4 | advance the "
     "logical clock by 1 / ttl-1 / ttl / ttl+1 / 2·ttl; histories also in the shape 'prefill cap-2..cap older nonces, advance < ttl, then few newer nonces'), target ∈ {NonceCache.check_and_add, proxy_proof_gate with real "
     "minted tokens and per-token timestamp offsets in [-skew,+skew]}, and a thread schedule (run-length segments or "
@@ -179,6 +180,33 @@ def _race_cases() -> Any:
     return build()
 
 
+def _full_race_cases() -> Any:
+    """The race starts on a cache that is already full of *live* entries from before the raced nonces' window: a
+    launcher thread fills ``capacity`` (or one fewer) older nonces sequentially, lets 1..ttl-1 seconds pass, then starts
+    2-3 threads that submit overlapping fresh nonces.  Every accept now goes through the make-room path, and because
+    the fillers arrived before the window, "fewer than capacity distinct nonces arrived in that window" still holds."""
+    @st.composite
+    def build(draw: Any) -> dict[str, Any]:
+        ttl = draw(st.sampled_from([2, 3, 5, 30]))
+        cap = draw(st.integers(2, 4))
+        nthreads = draw(st.integers(2, 3))
+        fill = cap - draw(st.sampled_from([0, 0, 0, 1]))
+        prefill = [["n", _NONCE_IDS - 1 - i] for i in range(fill)] + [["adv", draw(st.sampled_from(sorted({1, ttl - 1})))]]
+        threads = [draw(_ops(ttl, 3, draw(st.sampled_from([1, 1, 2])))) for _ in range(nthreads)]
+        via = draw(st.sampled_from(["cache", "cache", "gate"]))
+        # thread 0 is the launcher; the racing threads are 1..n
+        schedule = draw(st.one_of(
+            S.schedules(nthreads + 1, min_segments=2, max_segments=12, max_run=12),
+            S.pct_schedules(nthreads + 1, max_steps=70, max_changes=3),
+        ))
+        case: dict[str, Any] = {"via": via, "ttl": ttl, "capacity": cap, "prefill": prefill, "threads": threads, "schedule": schedule}
+        if via == "gate":
+            case["ts_off"] = [draw(st.integers(0, ttl)) for _ in range(_NONCE_IDS)]
+        return case
+
+    return build()
+
+
 def _history_cases(via: str) -> Any:
     @st.composite
     def build(draw: Any) -> dict[str, Any]:
@@ -286,8 +314,16 @@ def _execute(case: dict[str, Any]) -> tuple[list[_Call], dict[str, Any], S.RunRe
                 calls.append(c)
                 size_probe(None)
 
-        for ti, script in enumerate(scripts):
-            sch.spawn(worker, ti, script, name=f"t{ti}")
+        if case.get("prefill"):
+            def launcher() -> None:
+                worker(-1, case["prefill"])
+                for ti, script in enumerate(scripts):
+                    sch.spawn(worker, ti, script, name=f"t{ti}")
+
+            sch.spawn(launcher, name="launcher")
+        else:
+            for ti, script in enumerate(scripts):
+                sch.spawn(worker, ti, script, name=f"t{ti}")
         res = sch.run()
         res.raise_for_harness(allow_deadlock=False)
         # public observers, after the run (unmanaged: must not need to block)
@@ -387,6 +423,7 @@ def run_case(case: dict[str, Any]) -> Outcome:
 
 def main(chk: Check) -> None:
     chk.explore("race", _race_cases(), run_case, quick=1600, thorough=40000)
+    chk.explore("full_race", _full_race_cases(), run_case, quick=900, thorough=20000)
     chk.explore("history", _history_cases("cache"), run_case, quick=800, thorough=12000)
     chk.explore("gate_window", _history_cases("gate"), run_case, quick=500, thorough=8000)
     # small exhaustive grid of "expired entry re-accepted, then the cache fills" histories (sequential, no schedule)
